@@ -60,6 +60,7 @@ type vfc17Monitor struct {
 	uses    int
 	sameReq int
 	noTag   int
+	zombie  int // uses of a buffer by a matcher that had already released it
 }
 
 func vfc17NewMonitor() *vfc17Monitor {
@@ -169,6 +170,7 @@ func (mon *vfc17Monitor) hook(point string, a, b any) {
 			}
 			h[m] = true
 		} else {
+			mon.zombie++
 			// the matcher keeps using a buffer it already returned: it shares it with whoever holds it now
 			for other := range mon.holders[p] {
 				os := mon.ms[other]
@@ -258,7 +260,7 @@ func TestVF_C17(t *testing.T) {
 	r := vfkit.Start(t, "C17")
 	defer r.Finish()
 	r.Rule("case = group of 2..6 goroutines x 3..6 sharded Series requests running concurrently through ONE real ProxyStore (shared sync.Pool of shard-matcher buffers; lazy or eager; 1..5 scripted stores with and " +
-		"without sharding support, some failing at open/Recv, in a third of the groups also a real TSDBStore); requests end normally, by client cancellation after k sends, by a send error, or by a Limit; " +
+		"without sharding support (a third of them answer SupportsSharding/SupportsWithoutReplicaLabels differently from call to call), some failing at open/Recv, in a third of the groups also a real TSDBStore); requests end normally, by client cancellation after k sends, by a send error, or by a Limit; " +
 		"oracle = automaton over the shardbuf.use/shardbuf.put hook log: a ShardMatcher puts its buffer at most once; a buffer is never in use by live matchers of two different requests; data races are reported by the race detector; " +
 		"evaluation = one request; distinct = (strategy, stores, sharding mask, shard parameters, way of ending); non-trivial = the request released at least one pooled buffer; signature = order of use/put events by request")
 	r.Assume("a ShardMatcher is live from its first observed use until its first put; requests are told apart by a tag label the harness adds to ShardInfo.Labels (read by reflection from the matcher)")
@@ -321,9 +323,16 @@ func TestVF_C17(t *testing.T) {
 			case 1:
 				c.FaultKind, c.FaultAfter = vfc03FaultRecv, rng.Intn(4)
 			}
-			if c.Sharding {
+			if rng.Intn(3) == 0 {
+				// the endpoint's capabilities change between calls (its info is refreshed concurrently)
+				c.CapFlipSeed = r.Seed()*7_000_003 + int64(g)*131 + int64(i) + 1
+			}
+			switch {
+			case c.CapFlipSeed != 0:
+				mask += "f"
+			case c.Sharding:
 				mask += "S"
-			} else {
+			default:
 				mask += "p"
 			}
 			if c.FaultKind != 0 {
@@ -402,7 +411,7 @@ func TestVF_C17(t *testing.T) {
 			}
 			r.Violation(g, v.fp, v.what+fmt.Sprintf(" (retrieval %s)", strategy), map[string]any{
 				"retrieval": string(strategy), "lazy_buffer": buf, "stores": mask, "requests": reqs, "matcher_events": v.log,
-				"note": "stores: S=supports sharding, p=proxy applies sharding, !=failing, T=real TSDBStore"})
+				"note": "stores: S=supports sharding, p=proxy applies sharding, f=capability answers flip between calls, !=failing, T=real TSDBStore"})
 		}
 		r.Sample(map[string]any{"retrieval": string(strategy), "stores": mask, "goroutines": workers, "requests": workers * per, "first_request": plan[0][0].class()})
 	}
@@ -410,6 +419,7 @@ func TestVF_C17(t *testing.T) {
 	r.Extra("hook_use_events", mon.uses)
 	r.Extra("hook_put_events", mon.puts)
 	r.Extra("same_request_buffer_sharing_observed", mon.sameReq)
+	r.Extra("uses_after_own_release_observed", mon.zombie)
 	r.Extra("matchers_without_request_tag", mon.noTag)
 	noTag, puts := mon.noTag, mon.puts
 	mon.mu.Unlock()
